@@ -92,7 +92,7 @@ def accept_pointer(tier):
     ]
     h = SB_HARNESS + '  uintptr_t in_val; int *raw = (int *)in_val;\n  struct %s r = $ROOT(&sb, raw);\n' % TT
     return Inst('c02_unsafe_accept_pointer', 'rlbox_sandbox<vsbx>& s, int* raw', 's.UNSAFE_accept_pointer(raw);', cl, h,
-                leaves=['dynamic_check', ('assign_raw_pointer(contract)', is_assign, leaf_cl)], prop=PROP, root_name='UNSAFE_accept_pointer', tier=tier,
+                leaves=['dynamic_check', ('assign_raw_pointer(contract)', is_assign, leaf_cl), 'find_sandbox_from_example', 'vsbx.impl_is_pointer_in_sandbox_memory'], prop=PROP, root_name='UNSAFE_accept_pointer', tier=tier,
                 pre=PRE_GHOST, replay={'kind': 'accept_pointer'})
 
 
